@@ -158,3 +158,101 @@ Theorem C09_source_remove_count : forall idx N,
   SeqOps.remove_count N idx =
   (if (idx <=? N) && (1 <=? N - idx) then Some (geval (env1 "idx" idx) N remove_copy_count) else None).
 Proof. exact tie_remove_count. Qed.
+
+(* ---- tier T3: the BODIES of append / prepend / pop_back / pop_front / split (owned, &, &mut) /
+   concat / remove_unchecked / swap_remove_unchecked / remove / swap_remove as tools/ga2coq
+   regenerates them from src/sequence.rs on every run (coq/gen/GenSeq.v: typed straight-line
+   pointer programs, every `as _` resolved from the declared types), run by the interpreter of
+   PtrProg.v over the bounds- and initialisation-checked memory, ARE the hub functions the
+   theorems above are about ... ---- *)
+From GA Require Import PtrProg PtrTie.
+From GAGen Require Import GenSeq.
+Import Coq.Lists.List GA.SeqOps.   (* append, concat, length: the sequence operations, not the string ones *)
+Local Open Scope nat_scope.
+Local Open Scope string_scope.
+
+Theorem C09_source_prog_lengthen : forall l x k,
+  run gen_append (Datatypes.length l) k [("self", VArr l); ("last", VElem x)] = rmap (fun r => [VArr r]) (append l x) /\
+  run gen_prepend (Datatypes.length l) k [("self", VArr l); ("first", VElem x)] = rmap (fun r => [VArr r]) (prepend l x).
+Proof. exact (fun l x k => conj (tie_append l x k) (tie_prepend l x k)). Qed.
+
+Theorem C09_source_prog_shorten : forall l k,
+  run gen_pop_back (Datatypes.length l) k [("self", VArr l)] = rmap (fun p => [VArr (fst p); VElem (snd p)]) (pop_back l) /\
+  run gen_pop_front (Datatypes.length l) k [("self", VArr l)] = rmap (fun p => [VElem (fst p); VArr (snd p)]) (pop_front l).
+Proof. exact (fun l k => conj (tie_pop_back l k) (tie_pop_front l k)). Qed.
+
+Theorem C09_source_prog_split : forall K l,
+  run gen_split (Datatypes.length l) K [("self", VArr l)] = rmap (fun p => [VArr (fst p); VArr (snd p)]) (split K l) /\
+  run gen_split_ref (Datatypes.length l) K [("self", VArr l)] =
+    (omap (fun p => [VView (fst p); VView (snd p)]) (split_ref (Datatypes.length l) K), []) /\
+  run gen_split_mut (Datatypes.length l) K [("self", VArr l)] =
+    (omap (fun p => [VView (fst p); VView (snd p)]) (split_ref (Datatypes.length l) K), []).
+Proof. exact (fun K l => conj (tie_split K l) (conj (tie_split_ref K l) (tie_split_mut K l))). Qed.
+
+Theorem C09_source_prog_concat : forall l m,
+  run gen_concat (Datatypes.length l) (Datatypes.length m) [("self", VArr l); ("rest", VArr m)] = rmap (fun r => [VArr r]) (concat l m).
+Proof. exact tie_concat. Qed.
+
+Theorem C09_source_prog_remove_unchecked : forall idx l k, (0 <= idx)%Z ->
+  run gen_remove_unchecked (Datatypes.length l) k [("self", VArr l); ("idx", VUsize idx)] =
+    (omap rm_out (remove_unchecked idx l), []) /\
+  run gen_swap_remove_unchecked (Datatypes.length l) k [("self", VArr l); ("idx", VUsize idx)] =
+    (omap rm_out (swap_remove_unchecked idx l), []).
+Proof. exact (fun idx l k H => conj (tie_remove_unchecked idx l k H) (tie_swap_remove_unchecked idx l k H)). Qed.
+
+Theorem C09_source_prog_remove : forall idx l k, (0 <= idx)%Z ->
+  run_tail gen_remove "remove_unchecked" gen_remove_unchecked (Datatypes.length l) k
+    [("self", VArr l); ("idx", VUsize idx)] = rmap rm_out (remove idx l) /\
+  run_tail gen_swap_remove "swap_remove_unchecked" gen_swap_remove_unchecked (Datatypes.length l) k
+    [("self", VArr l); ("idx", VUsize idx)] = rmap rm_out (swap_remove idx l).
+Proof. exact (fun idx l k H => conj (tie_remove idx l k H) (tie_swap_remove idx l k H)). Qed.
+
+(* ... so the regenerated programs themselves compute the Vec operations, for every array,
+   element and position: *)
+Theorem C09_source_append_is_push : forall l x k,
+  run gen_append (Datatypes.length l) k [("self", VArr l); ("last", VElem x)] = (Ok [VArr (l ++ [x])], []).
+Proof. exact src_append. Qed.
+
+Theorem C09_source_prepend_is_insert0 : forall l x k,
+  run gen_prepend (Datatypes.length l) k [("self", VArr l); ("first", VElem x)] = (Ok [VArr (x :: l)], []).
+Proof. exact src_prepend. Qed.
+
+Theorem C09_source_concat_is_extend : forall l m,
+  run gen_concat (Datatypes.length l) (Datatypes.length m) [("self", VArr l); ("rest", VArr m)] = (Ok [VArr (l ++ m)], []).
+Proof. exact src_concat. Qed.
+
+Theorem C09_source_pop_back_is_pop : forall l x k,
+  run gen_pop_back (Datatypes.length (l ++ [x])) k [("self", VArr (l ++ [x]))] = (Ok [VArr l; VElem x], []).
+Proof. exact src_pop_back. Qed.
+
+Theorem C09_source_pop_front_is_remove0 : forall l x k,
+  run gen_pop_front (Datatypes.length (x :: l)) k [("self", VArr (x :: l))] = (Ok [VElem x; VArr l], []).
+Proof. exact src_pop_front. Qed.
+
+Theorem C09_source_split_is_split_off : forall K l, K <= Datatypes.length l ->
+  run gen_split (Datatypes.length l) K [("self", VArr l)] = (Ok [VArr (firstn K l); VArr (skipn K l)], []).
+Proof. exact src_split. Qed.
+
+Theorem C09_source_split_ref_views : forall K l, K <= Datatypes.length l ->
+  run gen_split_ref (Datatypes.length l) K [("self", VArr l)] = (Ok [VView (0, K); VView (K, Datatypes.length l - K)], []) /\
+  run gen_split_mut (Datatypes.length l) K [("self", VArr l)] = (Ok [VView (0, K); VView (K, Datatypes.length l - K)], []).
+Proof. exact src_split_ref. Qed.
+
+Theorem C09_source_remove_is_vec_remove : forall l idx k, (0 <= idx < zlen l)%Z ->
+  exists r, vec_remove (Z.to_nat idx) l = Some r /\
+  run_tail gen_remove "remove_unchecked" gen_remove_unchecked (Datatypes.length l) k
+    [("self", VArr l); ("idx", VUsize idx)] = (Ok (rm_out r), []).
+Proof. exact src_remove. Qed.
+
+Theorem C09_source_swap_remove_is_vec_swap_remove : forall l idx k, (0 <= idx < zlen l)%Z ->
+  exists r, vec_swap_remove (Z.to_nat idx) l = Some r /\
+  run_tail gen_swap_remove "swap_remove_unchecked" gen_swap_remove_unchecked (Datatypes.length l) k
+    [("self", VArr l); ("idx", VUsize idx)] = (Ok (rm_out r), []).
+Proof. exact src_swap_remove. Qed.
+
+Theorem C09_source_out_of_range_panics_dropping_all : forall l idx k, l <> [] -> (zlen l <= idx)%Z ->
+  run_tail gen_remove "remove_unchecked" gen_remove_unchecked (Datatypes.length l) k
+    [("self", VArr l); ("idx", VUsize idx)] = (PanicBounds, map EDrop l) /\
+  run_tail gen_swap_remove "swap_remove_unchecked" gen_swap_remove_unchecked (Datatypes.length l) k
+    [("self", VArr l); ("idx", VUsize idx)] = (PanicBounds, map EDrop l).
+Proof. exact src_remove_out_of_range. Qed.
